@@ -301,6 +301,11 @@ def run_family(fam: Family, cases: list[Any], use_model: bool = True) -> FamResu
     fam.setup()
     obs = []
     for c in cases:
+        if getattr(fam, "realtime", False) and len(res.oracle_failures) >= 3:
+            # three reproduced failures on the wall clock are a verdict; a tree that makes connections hang would otherwise cost a
+            # timeout per remaining case
+            obs.append(None)
+            continue
         try:
             o = fam.impl(c)
         except Exception as e:  # harness failure, not a verdict
